@@ -11,6 +11,8 @@
 (*    recorded expiry is only looked at by SettledIsPaid through the sign   *)
 (*    of exp - ah - Need(k), a recorded accept time only through the age of *)
 (*    a pending timer;                                                      *)
+(*    (a pending keysend call passed the expiry pre-check at its height,    *)
+(*    nothing else looks at its expiry: it is viewed without it);           *)
 (*  - circuit keys are interchangeable unless an AMP invoice is present     *)
 (*    (AMP set membership names circuits; then only the members of s1 are   *)
 (*    interchangeable): the HTLC table is viewed as a bag of records.       *)
@@ -27,8 +29,8 @@ Rec(c) == [r |-> [htlc[c] EXCEPT !.exp = MarginOK(c), !.ah = 0, !.at = Age(c)],
 Bag == {<<x, Cardinality({c \in C : Rec(c) = x})>> : x \in {Rec(c) : c \in C}}
 \* (the last component is constant; comparing a function with itself makes TLC materialise the lazily
 \*  built function values of the state, which it otherwise fails to write when the queue spills to disk)
-View == <<inv, Bag, setOwner, nev, htlc = htlc /\ last = last /\ inv = inv>>
-FullView == <<inv, htlc, sub, timer, setOwner, height, now, nev>>
+View == <<inv, Bag, setOwner, {[x EXCEPT !.exp = 0] : x \in pend}, nev, htlc = htlc /\ last = last /\ inv = inv>>
+FullView == <<inv, htlc, sub, timer, setOwner, height, now, pend, nev>>
 
 MCInit == Init /\ nev = 0
 MCNext == /\ (MaxEvents = 0 \/ nev < MaxEvents)
